@@ -745,12 +745,71 @@ func (c *genctx) frameOffence(sc *scenario) {
 	sc.evs = append(sc.evs[:pos], append([]event{ev}, sc.evs[pos:]...)...)
 }
 
+// genManyStreams: more requests than the closed-stream memory holds (256), then late frames on
+// ids that are still remembered and on ids that have been forgotten.
+func (c *genctx) genManyStreams() *scenario {
+	r := c.r
+	sc := &scenario{cfg: srvCfg{maxStreams: r.pick(100, 3, 1), maxHeaderList: 1 << 20, maxBody: 4 << 20}}
+	n := 258 + r.intn(40)
+	sid := uint32(1)
+	var ids []uint32
+	for i := 0; i < n; i++ {
+		f := newFrame('H', 5, sid)
+		f.payload = []byte{0x82, 0x84, 0x87}
+		sc.evs = append(sc.evs, frameEv(f))
+		switch r.intn(10) {
+		case 0: // the peer gives up before the handler is done: the slot stays taken
+			rst := newFrame('R', 0, sid)
+			rst.code = 8
+			sc.evs = append(sc.evs, frameEv(rst))
+			sc.evs = append(sc.evs, event{kind: 'D', sid: sid, resp: respSpec{status: 200, size: -1}})
+		default:
+			sc.evs = append(sc.evs, event{kind: 'D', sid: sid, resp: respSpec{status: 204, size: -1}})
+		}
+		ids = append(ids, sid)
+		sid += 2
+	}
+	// late frames
+	for k := 0; k < 6; k++ {
+		old := ids[r.pick(0, 1, len(ids)-257, len(ids)-256, len(ids)-255, len(ids)-2, len(ids)-1)]
+		var f frameSpec
+		switch r.intn(5) {
+		case 0:
+			f = newFrame('P', 0, old)
+			f.dep = 0
+		case 1:
+			f = newFrame('W', 0, old)
+			f.inc = 10
+		case 2:
+			f = newFrame('R', 0, old)
+			f.code = 8
+		case 3:
+			f = newFrame('D', 1, old)
+			f.payload = []byte{1, 2, 3}
+		default:
+			f = newFrame('H', 5, old)
+			f.payload = []byte{0x82, 0x84, 0x87}
+		}
+		sc.evs = append(sc.evs, frameEv(f))
+	}
+	// and one more request after all that
+	f := newFrame('H', 5, sid)
+	f.payload = []byte{0x82, 0x84, 0x87}
+	sc.evs = append(sc.evs, frameEv(f))
+	sc.evs = append(sc.evs, event{kind: 'D', sid: sid, resp: respSpec{status: 200, body: []byte("ok"), size: -1}})
+	sc.evs = append(sc.evs, event{kind: 'E'})
+	return sc
+}
+
 func genServer(c *genctx) {
 	n := c.n
 	for i := 0; i < n; i++ {
 		var sc *scenario
 		kind := "good"
 		switch {
+		case i%50 == 7:
+			sc = c.genManyStreams()
+			kind = "many-streams"
 		case i%4 == 1:
 			sc = c.genServerScenario(true)
 			kind = "offence-message"
